@@ -71,6 +71,24 @@ CondDtypeClauses(r) ==
     <<"Compared", r.ncmp >= 1>>
   >>
 
+(* "condbounds" records: one case of ParamRoutingOps!BoundsCases (ParamRoutingBounds.tla) - every   *)
+(* parameter of the family has a dependence function declared WITH the fit-time option bounds=      *)
+(* (defaults of the callable inside / outside these bounds) and the conditional distribution is      *)
+(* evaluated WITHOUT a preceding fit.  parrel: the value of every dependence function object at the  *)
+(* given(s) vs the driver's own call of the python callable with its declared defaults (1 where it   *)
+(* declares none), chained: the inner callable at the same given; tplrel vs the fresh template at    *)
+(* these values; vecrel vs one (x, given) pair at a time.  The bounds are no input of an evaluation   *)
+(* (ParamRoutingBounds!BoundsDoNotInfluenceEvaluation).                                               *)
+CondBoundsClauses(r) ==
+  IF r.exc # "" THEN << <<"UnexpectedException", FALSE>> >>
+  ELSE <<
+    <<"ResultShape", r.shapeok>>,
+    <<"DependenceValueIsCallableValue", r.parrel <= CondTolE15>>,
+    <<"CondEqualsTemplateAtValues", r.tplrel <= CondTolE15>>,
+    <<"VectorisedEqualsPointwise", r.vecrel <= CondTolE15>>,
+    <<"Compared", r.ncmp >= 1>>
+  >>
+
 Idx(kind) == {i \in 1..Len(TraceLog) : TraceLog[i].kind = kind}
 CondSeen == {<<TraceLog[i].fam, TraceLog[i].D, TraceLog[i].chain, TraceLog[i].shape,
                TraceLog[i].method>> : i \in Idx("cond")}
@@ -80,11 +98,14 @@ SummaryClauses(r) ==
                                + r.partreps * Cardinality({cc \in CondCases : cc[3] \in QuickIntChains})>>,
      <<"HistoryCoverage", HistSeen = MemoHistoryCases(4)>>,
      <<"DtypeCoverage", {<<TraceLog[i].fam, TraceLog[i].gkind, TraceLog[i].fn, TraceLog[i].method>> :
-                           i \in Idx("conddtype")} = DtypeCases>> >>
+                           i \in Idx("conddtype")} = DtypeCases>>,
+     <<"BoundsCoverage", {<<TraceLog[i].fam, TraceLog[i].bkind, TraceLog[i].chain, TraceLog[i].shape,
+                            TraceLog[i].method>> : i \in Idx("condbounds")} = BoundsCases>> >>
 
 Clauses(r) == CASE r.kind = "cond" -> CondClauses(r)
                 [] r.kind = "condhist" -> CondHistClauses(r)
                 [] r.kind = "conddtype" -> CondDtypeClauses(r)
+                [] r.kind = "condbounds" -> CondBoundsClauses(r)
                 [] r.kind = "summary" -> SummaryClauses(r)
 
 Verdict(r) == Failing(Clauses(r))
